@@ -85,6 +85,9 @@ func verifyFunction(P *Program, key string) (res *FuncResult) {
 		if r := recover(); r != nil {
 			if u, ok := r.(unsupportedErr); ok {
 				res.Err = u.Error()
+				if os.Getenv("GOVC_STACK") != "" {
+					res.Err += "\n" + string(debug.Stack())
+				}
 			} else {
 				res.Err = fmt.Sprintf("internal error: %v\n%s", r, debug.Stack())
 			}
